@@ -91,7 +91,7 @@ def run(ctx):
     ctx.run("C01-G3", "success construction", c01.g3_success_construction, floor=12)
     ctx.run("C05-I1", "shadow insertion followed by accept_route_state", c05.i1_insert_then_accept, floor=2)
     ctx.run("C06-E1", "exhaustive scan: aborted only on `stopped`; every leg folded", e1_exhaustive_scan, floor=4)
-    ctx.run("C01-W1", "time windows: admitted iff no arrival after its latest time; the scan is aborted (fail) only on target-independent facts", c01.w1_time_window_law, floor=2)
+    ctx.run("C01-W1", "time windows: admitted iff no arrival after its latest time; the scan is aborted (fail) only on target-independent facts", c01.w1_time_window_law, floor=1)
     ctx.run("C01-C1", "capacity: demand parts vs their load summaries; violation iff some load does not fit; abort only for static delivery", c01.c1_capacity_law, floor=5)
     ctx.run("C05-R1", "schedule recurrence of the forward pass", c05.r1_schedule_recurrence, floor=1)
     ctx.run("C01-D1", "routing legs are queried in travel direction (prev -> target -> next)", c01.d1_leg_direction, floor=4)
